@@ -79,7 +79,7 @@ fn run(input_chunks: &[&[u8]], cfg: Cfg, opts: &Opts) -> Run {
             t1()?;
             acc.borrow_mut().push_str(t.as_str());
             let loc = t.source_location().bytes();
-            if rec { r1.borrow_mut().locs.push(("T".into(), loc.start, loc.end)); }
+            if rec { r1.borrow_mut().locs.push((if t.last_in_text_node() { "TL" } else { "T" }.into(), loc.start, loc.end)); }
             if t.last_in_text_node() {
                 let s = std::mem::take(&mut *acc.borrow_mut());
                 let tt = match t.text_type() { TextType::Data => "data", TextType::PlainText => "plain", TextType::RCData => "rcdata", TextType::RawText => "raw", TextType::ScriptData => "script", TextType::CDataSection => "cdata" };
@@ -226,10 +226,19 @@ fn check_input(prop: &str, input: &[u8], max_cuts: usize, rep: &mut Report) {
                         };
                         if !ok && base.err.is_none() { rep.fail("range is not the construct's bytes", input, &[], cfg, format!("{k} {s}..{e} = {:?}", String::from_utf8_lossy(b))); }
                     }
-                    // text chunk ranges: contiguous and inside the document
-                    let t = run(&[input], cfg, &Opts { record_text_chunks: true, ..Opts::default() });
-                    let mut prev: Option<(usize, usize)> = None;
-                    for (k, s, e) in &t.locs { if k == "T" { if s > e || *e > input.len() { rep.fail("text range out of input", input, &[], cfg, format!("{s}..{e}")); } if let Some((_, pe)) = prev { if *s < pe { rep.fail("text ranges overlap", input, &[], cfg, format!("{:?}", t.locs)); } } prev = Some((*s, *e)); } else { prev = None; } }
+                    // text chunk ranges: contiguous inside a text node, inside the document, for every chunking
+                    for cuts in &all_cuts {
+                        let t = run(&split(input, cuts), cfg, &Opts { record_text_chunks: true, ..Opts::default() });
+                        rep.cases += 1;
+                        let mut prev_end: Option<usize> = None;
+                        for (k, s, e) in &t.locs {
+                            if k == "T" || k == "TL" {
+                                if s > e || *e > input.len() { rep.fail("text range out of input", input, cuts, cfg, format!("{s}..{e}")); }
+                                if let Some(pe) = prev_end { if *s != pe { rep.fail("text chunk ranges of one text node are not contiguous", input, cuts, cfg, format!("{:?}", t.locs)); } }
+                                prev_end = if k == "TL" { None } else { Some(*e) };
+                            } else { prev_end = None; }
+                        }
+                    }
                 }
             }
             "C06" => {
@@ -318,6 +327,80 @@ fn check_input(prop: &str, input: &[u8], max_cuts: usize, rep: &mut Report) {
     }
 }
 
+// C08: inserted text / accepted names and values cannot change structure: the output is re-parsed by the real parser and must
+// show the original structure plus exactly the inserted item.  `payload` ranges over all strings (bounded).
+fn structure(doc: &[u8]) -> Vec<String> { run(&[doc], Cfg::ObserveAll, &Opts::default()).events }
+fn check_payload(payload: &[u8], rep: &mut Report) {
+    let Ok(p) = std::str::from_utf8(payload) else { return };
+    let p_owned = p.to_string();
+    // (1) Text content appended into an element
+    {
+        let mut out = vec![];
+        let pp = p_owned.clone();
+        { let mut rw = HtmlRewriter::new(Settings::new().append_element_content_handler(element!("p", move |el| { el.append(&pp, ContentType::Text); Ok(()) })), |c: &[u8]| out.extend_from_slice(c));
+          rw.write(b"<div><p>a</p>b</div>").unwrap(); rw.end().unwrap(); }
+        rep.cases += 1;
+        let ev = structure(&out);
+        let elems: Vec<&String> = ev.iter().filter(|e| !e.starts_with("T:")).collect();
+        let base = structure(b"<div><p>a</p>b</div>");
+        let base_elems: Vec<&String> = base.iter().filter(|e| !e.starts_with("T:")).collect();
+        if elems != base_elems { rep.fail("Text content changed the markup structure", payload, &[], Cfg::ObserveAll, format!("out={:?} events={:?}", String::from_utf8_lossy(&out), ev)); }
+    }
+    // (2) attribute value
+    {
+        let mut out = vec![];
+        let pp = p_owned.clone();
+        { let mut rw = HtmlRewriter::new(Settings::new().append_element_content_handler(element!("p", move |el| { el.set_attribute("x", &pp)?; Ok(()) })), |c: &[u8]| out.extend_from_slice(c));
+          rw.write(b"<div><p k=v>a</p>b</div>").unwrap(); rw.end().unwrap(); }
+        rep.cases += 1;
+        let ev = structure(&out);
+        let expect_attr = format!("k=v,x={}", p_owned.replace('"', "&quot;"));
+        let ok = ev.iter().any(|e| e.starts_with("S:p:") && e.split(':').nth(2) == Some(&expect_attr)) || p_owned.contains(':');
+        let n_elems = ev.iter().filter(|e| e.starts_with("S:")).count();
+        if n_elems != 2 || !ok { rep.fail("attribute value changed the markup structure", payload, &[], Cfg::ObserveAll, format!("out={:?} events={:?}", String::from_utf8_lossy(&out), ev)); }
+    }
+    // (3) comment text
+    {
+        let mut out = vec![];
+        let pp = p_owned.clone();
+        let accepted = std::rc::Rc::new(std::cell::Cell::new(false));
+        let acc2 = accepted.clone();
+        { let mut rw = HtmlRewriter::new(Settings::new().append_document_content_handler(doc_comments!(move |c| { acc2.set(c.set_text(&pp).is_ok()); Ok(()) })), |c: &[u8]| out.extend_from_slice(c));
+          rw.write(b"<div><!--c-->b</div>").unwrap(); rw.end().unwrap(); }
+        rep.cases += 1;
+        let ev = structure(&out);
+        if accepted.get() {
+            let want = vec![ev.first().cloned().unwrap_or_default(), format!("C:{}", p_owned), "T:data:b".to_string(), "E:div".to_string()];
+            if ev != want { rep.fail("accepted comment text changed the markup structure", payload, &[], Cfg::ObserveAll, format!("out={:?} events={:?}", String::from_utf8_lossy(&out), ev)); }
+        } else if out != b"<div><!--c-->b</div>" { rep.fail("rejected comment text modified the token", payload, &[], Cfg::ObserveAll, format!("out={:?}", String::from_utf8_lossy(&out))); }
+    }
+    // (4) tag name and attribute name
+    {
+        let mut out = vec![];
+        let pp = p_owned.clone();
+        let accepted = std::rc::Rc::new(std::cell::Cell::new((false, false)));
+        let acc2 = accepted.clone();
+        { let mut rw = HtmlRewriter::new(Settings::new().append_element_content_handler(element!("p", move |el| { let a = el.set_tag_name(&pp).is_ok(); let b = el.set_attribute(&pp, "1").is_ok(); acc2.set((a, b)); Ok(()) })), |c: &[u8]| out.extend_from_slice(c));
+          rw.write(b"<div><p>a</p>b</div>").unwrap(); rw.end().unwrap(); }
+        rep.cases += 1;
+        let ev = structure(&out);
+        let (a, b) = accepted.get();
+        let n_s = ev.iter().filter(|e| e.starts_with("S:")).count();
+        let n_e = ev.iter().filter(|e| e.starts_with("E:")).count();
+        if n_s != 2 || n_e != 2 { rep.fail("accepted tag/attribute name changed the markup structure", payload, &[], Cfg::ObserveAll, format!("accepted=({a},{b}) out={:?} events={:?}", String::from_utf8_lossy(&out), ev)); }
+        if a {
+            let name_ok = ev.iter().any(|e| e.starts_with(&format!("S:{}:", p_owned))) && ev.iter().any(|e| *e == format!("E:{}", p_owned));
+            if !name_ok && !matches!(p_owned.to_ascii_lowercase().as_str(), "script" | "style" | "title" | "textarea" | "xmp" | "iframe" | "noembed" | "noframes" | "noscript" | "plaintext" | "svg" | "math") { rep.fail("renamed tag not found with the new name on both tags", payload, &[], Cfg::ObserveAll, format!("out={:?} events={:?}", String::from_utf8_lossy(&out), ev)); }
+        }
+        if b {
+            let attr_ok = ev.iter().any(|e| e.starts_with("S:") && e.contains(&format!("{}=1", p_owned)));
+            if !attr_ok && !p_owned.contains(':') && !p_owned.contains(',') { rep.fail("accepted attribute name does not re-parse as that attribute", payload, &[], Cfg::ObserveAll, format!("out={:?} events={:?}", String::from_utf8_lossy(&out), ev)); }
+        }
+    }
+}
+
+const PAYLOAD_ALPHABET: &[u8] = b"<>/a!-=\" &;'\n\x0c";
+
 fn main() {
     let args: Vec<String> = std::env::args().collect();
     let prop = args.get(1).cloned().unwrap_or_else(|| "C01".into());
@@ -332,8 +415,20 @@ fn main() {
         for &c in ALPHABET { buf.push(c); rec(buf, max_len, prop, max_cuts, rep); buf.pop(); }
     }
     let exhaustive_len = if matches!(prop.as_str(), "C10" | "C11" | "C09") { max_len.min(3) } else { max_len };
+    if prop == "C08" {
+        fn recp(buf: &mut Vec<u8>, max_len: usize, rep: &mut Report) {
+            check_payload(buf, rep);
+            if buf.len() == max_len || rep.violations.len() >= 5 { return; }
+            for &c in PAYLOAD_ALPHABET { buf.push(c); recp(buf, max_len, rep); buf.pop(); }
+        }
+        recp(&mut buf, max_len, &mut rep);
+        for s in ["-->", "--!>", "a-->b", "x--!>y", "->", ">", "</p>", "\"><b", "a b", "caf\u{e9}", "--", "<!--", "]]>", "&quot;"] { check_payload(s.as_bytes(), &mut rep); }
+        println!("{{\"property\":{:?},\"cases\":{},\"alphabet\":{:?},\"exhaustive_len\":{},\"seed_documents\":{},\"max_cuts\":{},\"violations\":[{}]}}",
+            rep.prop, rep.cases, String::from_utf8_lossy(PAYLOAD_ALPHABET), max_len, 14, 0, rep.violations.join(","));
+        std::process::exit(if rep.violations.is_empty() { 0 } else { 1 });
+    }
     rec(&mut buf, exhaustive_len, &prop, max_cuts, &mut rep);
-    for s in SEEDS { if rep.violations.len() < 5 { check_input(&prop, s.as_bytes(), if matches!(prop.as_str(), "C10" | "C11") { 1 } else { max_cuts.max(1) }, &mut rep); } }
+    for s in SEEDS { if rep.violations.len() < 5 { check_input(&prop, s.as_bytes(), if matches!(prop.as_str(), "C10" | "C11") { 1 } else { max_cuts.max(2) }, &mut rep); } }
     println!("{{\"property\":{:?},\"cases\":{},\"alphabet\":{:?},\"exhaustive_len\":{},\"seed_documents\":{},\"max_cuts\":{},\"violations\":[{}]}}",
         rep.prop, rep.cases, String::from_utf8_lossy(ALPHABET), exhaustive_len, SEEDS.len(), max_cuts, rep.violations.join(","));
     std::process::exit(if rep.violations.is_empty() { 0 } else { 1 });
